@@ -4,52 +4,16 @@
         whose result can reach output takes the enumeration order as an explicit argument:
           expected_join_raw / _sorted   error.make_error_from_parse_error  ", ".join(expected_tokens)
           ambiguous_name_error          symbol_resolver.ambiguous_name_error   sorted(candidate_locations)
-          cycle_errors                  dependency_checker._find_object_dependency_cycles
-                                        for cycle in cycles: sorted(list(cycle))
+          cycle_errors / _old           dependency_checker._find_object_dependency_cycles
+                                        for cycle in sorted(cycles, key=sorted): sorted(list(cycle))
           sorted_consumer               any `f(sorted(s))`   (lr1._parallel_goto, _items, format_production_set, ...)
           fold_consumer                 any commutative accumulation (set union, any/all, dict of sets)
    (ii) Process state.  compile : state -> inputs -> state * output with glue._cached_modules and
         module_ir._anonymous_name_counter. *)
 From Coq Require Import ZArith NArith List Bool String Permutation.
 Import ListNotations.
-Require Import EmbossV.Pipeline.Errors.
+Require Import EmbossV.Pipeline.Order EmbossV.Pipeline.Errors.
 Open Scope N_scope.
-
-(* ------------------------------------------------------------------------- *)
-(* orders and sorted()                                                        *)
-(* ------------------------------------------------------------------------- *)
-
-Fixpoint list_cmp {A} (c : A -> A -> comparison) (a b : list A) : comparison :=
-  match a, b with
-  | [], [] => Eq
-  | [], _ :: _ => Lt
-  | _ :: _, [] => Gt
-  | x :: a', y :: b' => match c x y with Eq => list_cmp c a' b' | r => r end
-  end.
-Definition pair_cmp {A B} (ca : A -> A -> comparison) (cb : B -> B -> comparison) (x y : A * B) : comparison :=
-  match ca (fst x) (fst y) with Eq => cb (snd x) (snd y) | r => r end.
-
-Definition str_cmp : str -> str -> comparison := list_cmp N.compare.       (* Python str ordering: by code point *)
-
-Section Sort.
-  Context {A : Type}.
-  Variable cmp : A -> A -> comparison.
-  Definition leb (a b : A) : bool := match cmp a b with Gt => false | _ => true end.
-  Fixpoint insert (a : A) (l : list A) : list A :=
-    match l with
-    | [] => [a]
-    | b :: t => if leb a b then a :: l else b :: insert a t
-    end.
-  Definition isort (l : list A) : list A := fold_right insert [] l.
-End Sort.
-
-(* the laws a comparison must satisfy for sorted() to be canonical *)
-Record ord_laws {A} (cmp : A -> A -> comparison) : Prop := mkOrd {
-  cmp_eq : forall a b, cmp a b = Eq -> a = b;
-  cmp_refl : forall a, cmp a a = Eq;
-  cmp_anti : forall a b, cmp b a = CompOpp (cmp a b);
-  cmp_trans : forall a b c, cmp a b = Lt -> cmp b c = Lt -> cmp a c = Lt
-}.
 
 (* ------------------------------------------------------------------------- *)
 (* (i) consumers of unordered collections                                     *)
@@ -83,7 +47,11 @@ Definition node := (str * list str)%type.                       (* (module file,
 Definition node_cmp : node -> node -> comparison := pair_cmp str_cmp (list_cmp str_cmp).
 Definition cycle_group (describe : node -> message) (cycle_order : list node) : group :=
   map describe (isort node_cmp cycle_order).
+(* `for cycle in sorted(cycles, key=sorted)` (commit c517e93): the key of a cycle is its sorted member list *)
 Definition cycle_errors (describe : node -> message) (order : list (list node)) : errors :=
+  map (map describe) (isort (list_cmp node_cmp) (map (isort node_cmp) order)).
+(* before: `for cycle in cycles` *)
+Definition cycle_errors_old (describe : node -> message) (order : list (list node)) : errors :=
   map (cycle_group describe) order.
 
 (* generic shapes *)
